@@ -575,10 +575,6 @@ def main():
         "than one genotype of positive posterior."
     )
     try:
-        r = tlc.run(SPEC, "ExactPosterior", "MC_%s.cfg" % tier, timeout=2400)
-        ck.add_tlc(r, "ExactPosterior")
-        if r.violated:
-            ck.violation("model", {"invariant": r.violated, "text": r.error_text[:1500]}, key={"model": "ExactPosterior"})
         killed = 0
         for cfg, inv in (("Mutant_skiplast.cfg", "TotalIsSum"), ("Mutant_occur.cfg", "FrequenciesProper"),
                          ("Mutant_support.cfg", "SupportIsAlleleSetClass")):
@@ -589,51 +585,87 @@ def main():
         ck.note("mutant_specs_killed", killed)
     except tlc.TLCError as e:
         ck.machinery_failure(str(e))
-    log("TLC done: %d states, %d instances" % (r.distinct, len(r.printed)))
+    # quick: one TLC run over the whole grid; thorough: the same cfg run once per haplotype menu (the menus are
+    # independent sub-grids) so that the replay of one menu can start while memory of the previous one is released
+    with open(os.path.join(SPEC, "MC_%s.cfg" % tier)) as fh:
+        cfg_text = fh.read()
+    groups = [("all", "MC_%s.cfg" % tier)]
+    if tier == "thorough":
+        groups = []
+        for menu in ("K1N0", "K2N1", "K3N1", "K3N2", "K4N2", "K2N3", "K4N3"):
+            path = os.path.join(ck.wd, "MC_thorough_%s.cfg" % menu)
+            with open(path, "w") as fh:
+                fh.write(cfg_text.replace("CONSTANT Menus <- MenusThorough", 'CONSTANT Menus = {"%s"}' % menu))
+            groups.append((menu, path))
     models = {}
-    for rec in r.printed:
-        M = Model(rec)
+    jit_results = {}
+    n_stream = 250 if tier == "quick" else 2500
+    pick = []
+    for gi, (glabel, cfg) in enumerate(groups):
         try:
-            M.self_check()
-        except AssertionError as e:
-            ck.machinery_failure("model output inconsistent: %s %s" % (e, ikey(rec)))
-        models[ikey(rec)] = M
+            r = tlc.run(SPEC, "ExactPosterior", cfg, timeout=2400, keep_stdout=False, name="ExactPosterior-MC-" + glabel)
+        except tlc.TLCError as e:
+            ck.machinery_failure(str(e))
+        ck.add_tlc(r, "ExactPosterior-" + glabel)
+        if r.violated:
+            ck.violation("model", {"invariant": r.violated, "text": r.error_text[:1500]}, key={"model": "ExactPosterior"})
+        log("TLC %s done: %d states, %d instances" % (glabel, r.distinct, len(r.printed)))
+        gmodels = {}
+        for rec in r.printed:
+            M = Model(rec)
+            try:
+                M.self_check()
+            except AssertionError as e:
+                ck.machinery_failure("model output inconsistent: %s %s" % (e, ikey(rec)))
+            gmodels[ikey(rec)] = M
+            for f in ("jtab", "ltab", "order", "fnum", "onum", "total", "modeJ", "suppJ"):
+                rec.pop(f, None)      # keep the compact integers only
+        del r
+        models.update(gmodels)
+        keys = sorted(gmodels)
+        # trace picks for this group (proportional share)
+        cand = [k for k in keys if not (gmodels[k].inst["Fn"] > 0 and 0 in gmodels[k].inst["w"])]
+        share = max(1, n_stream // len(groups)) if len(groups) > 1 else n_stream
+        gpick = set(rnd.sample(cand, min(share, len(cand))))
+        pick.extend(sorted(gpick))
+
+        # ---- spec -> code, API level ---------------------------------------------
+        chunks = [keys[i : i + 150] for i in range(0, len(keys), 150)]
+        for mode in ("jit", "py"):
+            tasks = []
+            for c in chunks:
+                insts = [gmodels[k].inst for k in c]
+                if mode == "py":   # interpreted math.lgamma(0) raises where compiled lgamma returns inf: not comparable
+                    insts = [i for i in insts if not (i["Fn"] > 0 and 0 in i["w"])]
+                tasks.append({"op": "api", "insts": insts, "all_flags": mode == "jit"})
+            res = pool.map_tasks("impl.c03", tasks, mode=mode)
+            for t, rr in zip(tasks, res):
+                if not rr["ok"]:
+                    ck.violation("impl-error", {"mode": mode, "error": rr["error"], "tb": rr.get("tb"), "first": t["insts"][:1]},
+                                 key={"site": "api", "mode": mode})
+                    continue
+                flag_sets = list(itertools.product([False, True], repeat=3)) if mode == "jit" else [(False,) * 3, (True,) * 3]
+                for inst, o in zip(t["insts"], rr["result"]):
+                    M = gmodels[ikey(inst)]
+                    ck.evaluations += 1
+                    if mode == "jit":
+                        if ikey(inst) in gpick:
+                            jit_results[ikey(inst)] = o
+                        if len(inst["reads"]) > 0 and sum(1 for j in M.J if j > 0) > 1:
+                            ck.nontrivial += 1
+                    for vname, ov in o["variants"].items():
+                        for flags, pm in zip(flag_sets, ov["pm"]):
+                            cmp_stream(ck, M, pm, flags, mode + ":" + vname)
+                        cmp_array(ck, M, ov, mode + ":" + vname)
+                    if "expanded" in o:
+                        cmp_stream(ck, M, o["expanded"], (True, True, True), mode + ":expanded", site="posterior_mode(read_counts=None)")
+            del res
+            if keys:
+                ck.sample({"kind": "instance", "mode": mode, "inst": gmodels[keys[len(keys) // 3]].inst,
+                           "model_total_J": str(gmodels[keys[len(keys) // 3]].total)})
+            log("API replay %s %s done" % (glabel, mode))
     ck.note("instances", len(models))
     keys = sorted(models)
-
-    # ---- spec -> code, API level -------------------------------------------------
-    chunks = [keys[i : i + 150] for i in range(0, len(keys), 150)]
-    jit_results = {}
-    for mode in ("jit", "py"):
-        tasks = []
-        for c in chunks:
-            insts = [models[k].inst for k in c]
-            if mode == "py":   # interpreted math.lgamma(0) raises where compiled lgamma returns inf: not comparable
-                insts = [i for i in insts if not (i["Fn"] > 0 and 0 in i["w"])]
-            tasks.append({"op": "api", "insts": insts, "all_flags": mode == "jit"})
-        res = pool.map_tasks("impl.c03", tasks, mode=mode)
-        for t, rr in zip(tasks, res):
-            if not rr["ok"]:
-                ck.violation("impl-error", {"mode": mode, "error": rr["error"], "tb": rr.get("tb"), "first": t["insts"][:1]},
-                             key={"site": "api", "mode": mode})
-                continue
-            flag_sets = list(itertools.product([False, True], repeat=3)) if mode == "jit" else [(False,) * 3, (True,) * 3]
-            for inst, o in zip(t["insts"], rr["result"]):
-                M = models[ikey(inst)]
-                ck.evaluations += 1
-                if mode == "jit":
-                    jit_results[ikey(inst)] = o
-                    if len(inst["reads"]) > 0 and sum(1 for j in M.J if j > 0) > 1:
-                        ck.nontrivial += 1
-                for vname, ov in o["variants"].items():
-                    for flags, pm in zip(flag_sets, ov["pm"]):
-                        cmp_stream(ck, M, pm, flags, mode + ":" + vname)
-                    cmp_array(ck, M, ov, mode + ":" + vname)
-                if "expanded" in o:
-                    cmp_stream(ck, M, o["expanded"], (True, True, True), mode + ":expanded", site="posterior_mode(read_counts=None)")
-        ck.sample({"kind": "instance", "mode": mode, "inst": models[keys[len(keys) // 3]].inst,
-                   "model_total_J": str(models[keys[len(keys) // 3]].total)})
-        log("API replay %s done" % mode)
     ck.traces += len(models)
 
     # ---- spec -> code, command line level ----------------------------------------
@@ -641,10 +673,7 @@ def main():
     log("command line level done")
 
     # ---- code -> spec --------------------------------------------------------------
-    n_stream = 250 if tier == "quick" else 2500
     n_rand = 60 if tier == "quick" else 600
-    cand = [k for k in keys if not (models[k].inst["Fn"] > 0 and 0 in models[k].inst["w"])]
-    pick = rnd.sample(cand, min(n_stream, len(cand)))
     rand = [random_instance(rnd) for _ in range(n_rand)]
     rand_py = [i for i in rand if not (i["Fn"] > 0 and 0 in i["w"])]
     st_insts = [models[k].inst for k in pick] + rand_py
